@@ -286,7 +286,7 @@ def o_tokens(markup):
 ATTR = {
     "b": "bold", "bold": "bold", "i": "italic", "italic": "italic", "u": "underline", "underline": "underline",
     "s": "strike", "strike": "strike", "d": "dim", "dim": "dim", "r": "reverse", "reverse": "reverse",
-    "blink": "blink", "blink2": "blink2", "conceal": "conceal", "frame": "frame", "encircle": "encircle",
+    "blink": "blink", "blink2": "blink2", "conceal": "conceal", "c": "conceal", "frame": "frame", "encircle": "encircle",
     "overline": "overline", "o": "overline", "uu": "underline2", "underline2": "underline2",
 }
 ATTR_ORDER = ["bold", "dim", "italic", "underline", "blink", "blink2", "reverse", "conceal", "strike",
@@ -344,6 +344,48 @@ def o_normalize(name):
     if bg:
         parts.append("on " + bg)
     return " ".join(parts) or "none"
+
+
+def o_style(text):
+    """The Style a tag applies, from the style definition AS WRITTEN in the markup (tag name, plus
+    " " + parameters when the tag has them), by this module's own word parser and Style's keyword
+    constructor — independent of Style.parse, Style.normalize and Style.__str__.
+    Text that is not a style definition applies nothing (Style.null()).  None = vocabulary does not decide."""
+    from rich.style import Style
+
+    if text.strip() == "none":
+        return Style.null()
+    attrs = {}
+    fg = bg = link = None
+    it = iter(text.split())
+    for w0 in it:
+        w = w0.lower()
+        if w == "on":
+            w2 = next(it, "").lower()
+            if not w2:
+                return Style.null()
+            if not _is_color(w2):
+                return None if _maybe_style(w2) else Style.null()
+            bg = w2
+        elif w == "not":
+            w2 = next(it, "").lower()
+            if w2 not in ATTR:
+                return Style.null()
+            attrs[ATTR[w2]] = False
+        elif w == "link":
+            w2 = next(it, "")
+            if not w2:
+                return Style.null()
+            link = w2
+        elif w in ATTR:
+            attrs[ATTR[w]] = True
+        elif _is_color(w):
+            fg = w
+        elif _maybe_style(w):
+            return None
+        else:
+            return Style.null()
+    return Style(color=fg, bgcolor=bg, link=link, **attrs)
 
 
 def _maybe_style(w):
